@@ -57,6 +57,71 @@ fn both<T: Serialize + DeserializeOwned>(cx: &mut Ctx, ty: &str, x: &T, same: &d
 }
 
 /// decoding a fixed-length array type from `count` bytes: every path must fail unless count == N
+/// Vec containers that are *shorter* than the fixed length the API needs (a tag of 15 bytes, a key of 31, a signature
+/// of 63), obtained by truncating a correct one so that the old bytes still sit in the Vec's spare capacity: the call
+/// must refuse (an error or a panic), never go on with bytes from beyond the container's length
+fn short_vec_containers(cx: &mut Ctx, idx: &mut u64) {
+    use dryoc::sign::{SignedMessage, SigningKeyPair};
+    *idx += 1;
+    if !cx.mine(*idx) {
+        return;
+    }
+    let mut rng = cx.rng.fork(*idx);
+    let key: [u8; 32] = rng.arr();
+    let nonce: [u8; 24] = rng.arr();
+    let msg = rng.bytes(40);
+    let b: DryocSecretBox<Vec<u8>, Vec<u8>> = DryocSecretBox::encrypt(&msg, &nonce.to_vec(), &key.to_vec());
+    let (tag, data) = b.into_parts();
+    let cut = |v: &Vec<u8>, n: usize| {
+        let mut c = Vec::with_capacity(v.len());
+        c.extend_from_slice(v);
+        c.truncate(n);
+        c
+    };
+    let mut judge = |cx: &mut Ctx, what: &str, len: usize, r: Result<bool, crate::ctx::Panicked>| {
+        cx.eval();
+        if let Ok(true) = r {
+            cx.violation(&format!("C16|short_container_accepted|{}", what), json!({"container":"Vec<u8> truncated, old bytes in spare capacity","len":len}));
+        }
+        cx.cover("short_vec_container", what);
+    };
+    for n in [15usize, 8, 1, 0] {
+        let t = cut(&tag, n);
+        let bx: DryocSecretBox<Vec<u8>, Vec<u8>> = DryocSecretBox::from_parts(t, data.clone());
+        let r = guard("short tag", || bx.decrypt::<Vec<u8>, Vec<u8>, Vec<u8>>(&nonce.to_vec(), &key.to_vec()).is_ok());
+        judge(cx, "secretbox_tag", n, r);
+    }
+    let bx: DryocSecretBox<Vec<u8>, Vec<u8>> = DryocSecretBox::from_parts(tag.clone(), data.clone());
+    for n in [31usize, 16, 0] {
+        let k = cut(&key.to_vec(), n);
+        let r = guard("short key", || bx.decrypt::<Vec<u8>, Vec<u8>, Vec<u8>>(&nonce.to_vec(), &k).is_ok());
+        judge(cx, "secretbox_key", n, r);
+    }
+    for n in [23usize, 12, 0] {
+        let nn = cut(&nonce.to_vec(), n);
+        let r = guard("short nonce", || bx.decrypt::<Vec<u8>, Vec<u8>, Vec<u8>>(&nn, &key.to_vec()).is_ok());
+        judge(cx, "secretbox_nonce", n, r);
+    }
+    let kp: SigningKeyPair<Vec<u8>, Vec<u8>> = {
+        let k: SigningKeyPair<StackByteArray<32>, StackByteArray<64>> = SigningKeyPair::from_seed(&rng.arr::<32>());
+        SigningKeyPair { public_key: k.public_key.to_vec(), secret_key: k.secret_key.to_vec() }
+    };
+    if let Ok(sm) = kp.sign::<Vec<u8>, Vec<u8>>(msg.clone()) {
+        let (sig, m) = sm.into_parts();
+        for n in [63usize, 32, 0] {
+            let s2: SignedMessage<Vec<u8>, Vec<u8>> = SignedMessage::from_parts(cut(&sig, n), m.clone());
+            let r = guard("short signature", || s2.verify(&kp.public_key).is_ok());
+            judge(cx, "signature", n, r);
+        }
+        let s3: SignedMessage<Vec<u8>, Vec<u8>> = SignedMessage::from_parts(sig.clone(), m.clone());
+        for n in [31usize, 0] {
+            let pk = cut(&kp.public_key, n);
+            let r = guard("short public key", || s3.verify(&pk).is_ok());
+            judge(cx, "signing_public_key", n, r);
+        }
+    }
+}
+
 fn wrong_length<T: DeserializeOwned + Bytes>(cx: &mut Ctx, ty: &str, n: usize, try_from: Option<&dyn Fn(&[u8]) -> bool>) {
     for count in 0..=2 * n {
         let data: Vec<u8> = (0..count).map(|i| (i as u8).wrapping_mul(3).wrapping_add(1)).collect();
@@ -125,6 +190,9 @@ pub fn run(cx: &mut Ctx) {
     let only_ni = false;
 
     if !only_ni {
+        for _rep in 0..cx.tier.pick(1usize, 16, 64) {
+            short_vec_containers(cx, &mut idx);
+        }
         for len in 0..=maxlen {
             idx += 1;
             if !cx.mine(idx) {
